@@ -164,8 +164,27 @@ func (b *kvBackend) fresh(ctx *Ctx, op, v string) {
 	b.issued[v] = true
 }
 
-func (b *kvBackend) exec(ctx *Ctx, w []string) string {
+// the token "~" stands for the EMPTY key / pattern (the line protocol is space-separated)
+func kvKey(t string) string {
+	if t == "~" {
+		return ""
+	}
+	return t
+}
+func kvShowKey(k string) string {
+	if k == "" {
+		return "~"
+	}
+	return k
+}
+
+func (b *kvBackend) exec(ctx *Ctx, w0 []string) string {
 	c := context.Background()
+	w := append([]string{}, w0...)
+	switch w[0] {
+	case "create", "get", "put", "cas", "delete", "wait", "list":
+		w[1] = kvKey(w[1])
+	}
 	switch w[0] {
 	case "subms":
 		us, _ := strconv.Atoi(w[2])
@@ -198,6 +217,9 @@ func (b *kvBackend) exec(ctx *Ctx, w []string) string {
 		var keys []string
 		if w[1] != "-" {
 			keys = strings.Split(w[1], ",")
+			for i := range keys {
+				keys[i] = kvKey(keys[i])
+			}
 		}
 		rs, err := b.st.GetMany(c, keys...)
 		if err != nil {
@@ -230,7 +252,7 @@ func (b *kvBackend) exec(ctx *Ctx, w []string) string {
 		if w[1] != "-" {
 			for _, p := range strings.Split(w[1], ",") {
 				f := strings.Split(p, ":")
-				recs = append(recs, kvs.Record{Key: f[0], Value: kvVal(f[1]), ExpiresAt: kvExp(f[2]), Version: "caller-supplied"})
+				recs = append(recs, kvs.Record{Key: kvKey(f[0]), Value: kvVal(f[1]), ExpiresAt: kvExp(f[2]), Version: "caller-supplied"})
 			}
 		}
 		if err := b.st.PutMany(c, recs); err != nil {
@@ -256,8 +278,11 @@ func (b *kvBackend) exec(ctx *Ctx, w []string) string {
 		}
 		var ks []string
 		for it.HasNext() {
-			k, _ := it.Next()
-			ks = append(ks, k)
+			k, ok := it.Next()
+			if !ok {
+				break
+			}
+			ks = append(ks, kvShowKey(k))
 		}
 		it.Close()
 		sort.Strings(ks)
@@ -428,6 +453,9 @@ func kvGen(ctx *Ctx, n int, redisOK bool, keys []string) []string {
 	if len(keys) > 0 && keys[0] == "a/b" {
 		pats = []string{"*", "a*", "a/*", "*b", "a/b", "a//b", "a/b/", "a/?/b", "a/b?", "*/"}
 	}
+	if len(keys) > 0 && keys[0] == "~" {
+		pats = []string{"*", "~", "a*", "?", "*a", "**", "a"}
+	}
 	if len(keys) > 0 && keys[0] == "a*" {
 		// escape alphabet: keys that contain wildcard characters / a backslash, patterns with `\x` escapes
 		pats = []string{"*", "a*", "a\\*", "a\\?b", "a?b", "a\\\\b", "\\ab", "a\\b", "a\\**", "ab", "a\\*b", "?\\*"}
@@ -593,6 +621,20 @@ func runKv(ctx *Ctx, kind string) {
 	pathKeys := []string{"a/b", "a//b", "a/b/", "a/./b"}
 	for c := 0; c < n/4; c++ {
 		kvRunCase(ctx, kind, "", kvGen(ctx, ctx.Rnd.Range(5, 40), true, pathKeys))
+	}
+	// 4e. the EMPTY key (token "~") next to ordinary ones: a key like any other for every operation incl. ListKeys
+	emptyKeys := []string{"~", "a", "b"}
+	for c := 0; c < n/4; c++ {
+		var ops []string
+		for _, o := range kvGen(ctx, ctx.Rnd.Range(5, 40), true, emptyKeys) {
+			// `list ?` with the empty key present is known finding KF-4 of C03 (the glob package's `?` accepts the
+			// empty string): asked only where that finding is listed
+			if strings.HasSuffix(o, " list ?") && ctx.Focus != "" && ctx.Focus != "C03" {
+				continue
+			}
+			ops = append(ops, o)
+		}
+		kvRunCase(ctx, kind, "", ops)
 	}
 	// 4b. keys with wildcard characters / a backslash in them and patterns with escapes (`\*`, `\?`, `\\`, `\a`)
 	escKeys := []string{"a*", "a?b", "a\\b", "ab"}
